@@ -1222,8 +1222,11 @@ func matchCryptoMap(al, bl []*cmd, f func([]*cmd, []*cmd)) {
 	}
 	mapPeerToSeq := func(seqMap map[int][]*cmd) map[string]int {
 		m := make(map[string]int)
-		for seq, l := range seqMap {
-			m[getPeer(l)] = seq
+		for _, seq := range slices.Sorted(maps.Keys(seqMap)) {
+			peer := getPeer(seqMap[seq])
+			if _, found := m[peer]; !found {
+				m[peer] = seq
+			}
 		}
 		return m
 	}
